@@ -360,7 +360,10 @@ class History:
                 rec = self.do_deposit(exact=True, caller=OWNER if r.random() < 0.9 else self.non_owner())
                 deposited = deposited or rec['status'] == 'ok'
             elif x < 0.72:
-                self.blacklist_ops()
+                rec = self.blacklist_ops()
+                if rec['status'] == 'ok' and r.random() < 0.4:
+                    # try to allocate again somebody who was just blacklisted (must be a duplicate)
+                    self.add_tickets([rec_user for rec_user in self.last_blacklisted[:1]])
             else:
                 self.setter_noise()
         if pend and r.random() < 0.9:
@@ -446,6 +449,7 @@ class History:
         if v == 'gt2' and r.random() < 0.4:
             ep = 'refund'
         rec = self.call(caller, [ep, len(us)] + us)
+        self.last_blacklisted = list(us)
         if r.random() < 0.6 and rec['status'] == 'ok':
             # attempts of the blacklisted user
             u = us[0]
@@ -497,6 +501,15 @@ class History:
         r = self.rng
         v = self.v
         self.round = r.choice([100, 100, r.randint(100, 150)])
+        cfg = self.view('config')
+        if cfg and r.random() < 0.5:
+            self.round = max(self.round, cfg[0]) if r.random() < 0.3 else cfg[0]   # exact boundary round
+            if self.users and r.random() < 0.6:
+                self.confirm(r.choice(self.users), 'ok')
+            if r.random() < 0.6:
+                self.call(OWNER, ['setConfStart', self.round + r.choice([1, 5, 20])])
+                if r.random() < 0.7:
+                    self.setter_noise()
         steps = r.randint(len(self.users), 3 * len(self.users) + 3)
         for _ in range(steps):
             self.round = min(199, self.round + r.choice([0, 0, 1, 5]))
@@ -597,6 +610,18 @@ class History:
         if v not in HAS_EXTRA and r.random() < 0.2:
             self.call(OWNER, 'extra')
 
+    def paused_claims(self):
+        """owner pauses, participants (settled or not) try to claim, owner withdraws, unpause"""
+        r = self.rng
+        rec = self.call(OWNER, 'pause')
+        if rec['status'] != 'ok':
+            return
+        for a in r.sample(self.users, min(len(self.users), r.randint(1, 3))):
+            self.call(a, 'claim')
+        if r.random() < 0.3:
+            self.call(OWNER, 'claimPayment')
+        self.call(OWNER, 'unpause')
+
     def timeline_probe(self):
         """owner tries to move a start round (future values) - legal only for rounds not yet reached"""
         r = self.rng
@@ -638,10 +663,14 @@ class History:
                     self.call(a, 'claim')
             if r.random() < 0.08:
                 self.probe()
+            if r.random() < 0.1:
+                self.paused_claims()
         # vesting tail: repeated claims at later rounds
         if v in ('gt1', 'gt2'):
             for _ in range(r.randint(2, 8)):
                 self.round += r.choice([1, 3, 7, 10, 25, 100])
+                if r.random() < 0.25:
+                    self.paused_claims()
                 for a in r.sample(self.users, min(len(self.users), r.randint(1, 3))):
                     self.call(a, 'claim')
             self.round += 1000
